@@ -152,6 +152,11 @@ def gen_pool(rng):
         add('pixreg', gen.simple_region(rng, [c], with_meta=0.75))
     for c in rng.sample(sky, 5) + [rng.pick(sky)]:
         add('skyreg', gen.simple_region(rng, [c], with_meta=0.75))
+    for c in ('EllipsePixelRegion', 'RectanglePixelRegion',
+              'RegularPolygonPixelRegion', 'RectangleSkyRegion'):
+        r = gen.region_from_tokens(c, gen.draw_tokens(rng, c, small=True))
+        del r['params']['angle']          # the constructor's default angle
+        add('skyreg' if 'Sky' in c else 'pixreg', r)
     add('pixcomp', gen.compound_region(rng, sky=False, depth=1))
     add('pixcomp', _annulus_like(rng))
     add('skycomp', gen.compound_region(rng, sky=True, depth=1))
@@ -557,6 +562,9 @@ class Exec:
                 mode = a.rng.pick(['bogus', None, 'Center'])
             else:
                 mode, sub = 'subpixels', a.rng.pick([0, -1, 2.5, None, 'x'])
+        if a.rng.chance(0.3):
+            return (lambda: reg.to_mask(mode, sub)), \
+                f'{_n(reg)}.to_mask({mode!r},{sub!r}) positional', None
         return (lambda: reg.to_mask(mode=mode, subpixels=sub)), \
             f'{_n(reg)}.to_mask({mode!r},{sub!r})', None
 
@@ -649,6 +657,9 @@ class Exec:
                 ang = a.rng.pick([30.0, 'x', None])
             else:
                 c = a.rng.pick([(1, 2), None])
+        if a.rng.chance(0.3):
+            return (lambda: reg.rotate(center=c, angle=ang)), \
+                f'{_n(reg)}.rotate keywords', None
         return (lambda: reg.rotate(c, ang)), f'{_n(reg)}.rotate', None
 
     def op_copy(self, a):
@@ -802,6 +813,9 @@ class Exec:
         f = fmt
         if a.bad() and a.rng.chance(0.3):
             f = a.rng.pick([None, 'DS9', 'bogus'])
+        if a.rng.chance(0.3):
+            return (lambda: target.serialize(f, **kw)), \
+                f'{_n(target)}.serialize({f!r},{kw}) positional', None
         return (lambda: target.serialize(format=f, **kw)), \
             f'{_n(target)}.serialize({f!r},{kw})', None
 
@@ -833,6 +847,9 @@ class Exec:
                 f = {'ds9': 'crtf', 'crtf': 'fits', 'fits': 'ds9'}[fmt]
             else:
                 data = a.rng.pick([None, 5, b'bytes'])
+        if a.rng.chance(0.3):
+            return (lambda: Regions.parse(data, f)), \
+                f'Regions.parse(<{fmt}>, {f!r}) positional', None
         return (lambda: Regions.parse(data, format=f)), \
             f'Regions.parse(<{fmt}>, {f!r})', None
 
